@@ -55,6 +55,7 @@ func corpus(coreMax, richMax int) (progs []*Prog, nCore int) {
 	nCore = len(progs)
 	progs = append(progs, Programs(Rich(), []term.Ty{B, I}, richMax)...)
 	progs = append(progs, widePrograms(5)...)
+	progs = append(progs, extraPrograms()...)
 	return progs, nCore
 }
 
@@ -115,6 +116,35 @@ func withMerged(progs []*Prog, maxSize int) []*Prog {
 		if p.Size <= maxSize {
 			out = append(out, mergedVariants(p)...)
 		}
+	}
+	return out
+}
+
+// extraPrograms: hand-written programs that are well formed but sit outside
+// the typed grammar: = / != are polymorphic, so comparing a non-boolean with a
+// boolean literal (or values of different types) is a legitimate `false`.
+func extraPrograms() []*Prog {
+	n := func() *term.Term { return term.Var("n", I) }
+	b := func() *term.Term { return term.Var("b", B) }
+	T, F := term.Const(true), term.Const(false)
+	var out []*Prog
+	add := func(t *term.Term) { out = append(out, MkProg(t)) }
+	for _, eq := range []string{"=", "eq", "=="} {
+		add(term.Op(eq, B, n(), T))
+		add(term.Op(eq, B, T.Clone(), n()))
+		add(term.Op(eq, B, n(), term.Named("KT", true)))
+		add(term.Op(eq, B, n(), term.Op("=", B, term.Const(1), term.Const(1))))
+		add(term.If(term.Op(eq, B, n(), T.Clone()), term.Const(1), term.Const(2)))
+		add(term.Op("and", B, term.Op(eq, B, n(), T.Clone()), b()))
+		add(term.Op(eq, B, b(), n()))
+		add(term.Op(eq, B, term.Op(eq, B, n(), n()), F.Clone()))
+		add(term.Op(eq, B, n(), T.Clone(), T.Clone()))
+	}
+	for _, ne := range []string{"!=", "ne"} {
+		add(term.Op(ne, B, n(), F.Clone()))
+		add(term.Op(ne, B, F.Clone(), n()))
+		add(term.Op("or", B, term.Op(ne, B, n(), F.Clone()), b()))
+		add(term.Op("not", B, term.Op(ne, B, b(), n())))
 	}
 	return out
 }
